@@ -320,7 +320,8 @@ fn parse_fields<'input, 'state>(
             parse_fields_impl(state, |attr, field, _| {
                 // Unwrapping is safe, cause fields in named struct
                 // always have an ident
-                let ident = field.ident.as_ref().unwrap();
+                // `r#source` names the very same field as `source` does.
+                let ident = syn::ext::IdentExt::unraw(field.ident.as_ref().unwrap());
 
                 match attr {
                     "source" => ident == "source",
